@@ -48,16 +48,16 @@ const (
 )
 
 type label struct {
-	kind  int
-	i     int
-	tr    int    // lStart
-	reads bool   // lStart
-	bs    []byte // aSend
-	ok    bool   // aSend
-	k     int    // fault kind
+	kind    int
+	i       int
+	tr      int    // lStart
+	reads   bool   // lStart
+	bs      []byte // aSend
+	ok      bool   // aSend
+	k       int    // fault kind
 	real    []byte // aSend: the bytes actually handed to Session.Send when they were prepared in advance
-	par     bool // the label belongs to a phase whose calls are made concurrently from different goroutines
-	natural bool // the fault is not injected: the configured deadline of the manager fires by itself
+	par     bool   // the label belongs to a phase whose calls are made concurrently from different goroutines
+	natural bool   // the fault is not injected: the configured deadline of the manager fires by itself
 }
 
 func (l label) internal() bool {
